@@ -17,23 +17,24 @@ HARNESSES = [dict(name="pppoe", pkg="./internal/pppoe/", test="TestVerifC02", ti
              dict(name="ipoe", pkg="./internal/ipoe/", test="TestVerifC02IPoE", timeout=900,
                   files=[("internal/ipoe/zz_verif_c02_ipoe_test.go", "harness/C02/zz_verif_c02_ipoe_test.go"),
                          ("pkg/allocator/zz_verif_c02_snap.go", "harness/C02/zz_verif_c02_alloc_snap.go"),
-                         ("plugins/dhcp4/local/zz_verif_c02_snap.go", "harness/C02/zz_verif_c02_dhcp4_snap.go")])]
+                         ("plugins/dhcp4/local/zz_verif_c02_snap.go", "harness/C02/zz_verif_c02_dhcp4_snap.go"),
+                         ("plugins/dhcp6/local/zz_verif_c02_snap.go", "harness/C02/zz_verif_c02_dhcp6_snap.go"),
+                         ("pkg/opdb/zz_verif_c02_idle.go", "harness/C02/zz_verif_c02_opdb_idle.go")])]
 
 
 def route(case):
     return "ipoe" if case.startswith("B ") else "pppoe"
 def _v(fixed):
-    return "v" + "".join("0" if i in fixed else "1" for i in range(1, 8))
+    return "v" + "".join("0" if i in fixed else "1" for i in range(1, 9))
 
 
-# Defect flags 1..7 (see Model.v).  Flags 1 (constant fall-back) and 3 (expiry take-over) are fixed in /repo
-# (24c9504, 58e16d0).  Variants tried, in order: repaired (no defect); the code today; the code today with one
-# more defect fixed (each remaining flag), with the two proposed patches (6: pending ACK recorded, 7: nil-pool
-# guard) together; and the historical combinations with 1 and/or 3 still present, so that older trees and
-# partially patched trees are still explained.
-FIXED = {1, 3}
-VARIANTS = (["repaired", _v(FIXED)] + [_v(FIXED | {i}) for i in (2, 4, 5, 6, 7)] + [_v(FIXED | {6, 7})] +
-            ["defective", _v({1}), _v({3})])
+# Defect flags 1..8 (see Model.v).  Fixed in /repo: 1 (constant fall-back, 24c9504), 3 (expiry take-over, 58e16d0),
+# 6 (pending ACK recorded, b04c868), 7 (nil-pool guard, d114f02).  Variants tried, in order: repaired (no defect);
+# the code today; the code today with one more defect fixed; then historical trees (one of the fixed flags still
+# present, or all) so that older / partially patched trees are still explained.
+FIXED = {1, 3, 6, 7}
+VARIANTS = (["repaired", _v(FIXED)] + [_v(FIXED | {i}) for i in (2, 4, 5, 8)] +
+            [_v(FIXED - {i}) for i in (1, 3, 6, 7)] + ["defective"])
 MODEL_NEEDS_IMPL = True
 RULE = ("random configurations: 1-3 IPv4 pools (0-3 addresses, exclusions, two profiles, VRFs 0/1, globally disjoint "
         "ranges, sometimes one containing 100.64.0.1), 0-2 IA_NA pools, 0-2 PD pools (/63 or /62 -> /64); 2-5 "
@@ -174,8 +175,10 @@ def gen_one(rng):
                 ops.append("IQ %d %s %s %s" % (sid, vrf, a4(), ov(pools4)))
             elif k < 0.72:
                 ops.append("%s %d %s %s %s %s %s" % (rng.choice(["IS", "IV", "IV"]), sid, vrf, a6(), apd(), ov(pools6), ov(poolsd)))
-            elif k < 0.84:
+            elif k < 0.80:
                 ops.append("IR %d" % sid)
+            elif k < 0.84:
+                ops.append("IL %d" % sid)
             elif k < 0.93:
                 ops.append("IT %d" % sid)
             else:
@@ -193,10 +196,20 @@ def gen_b(rng):
         size = rng.choice([1, 1, 2, 3])
         toks += ["P4", str(i + 1), str(rng.choice([0, 0, 1])), str(rng.choice([0, 0, 1])), str(lo), str(lo + size - 1), "-"]
         pools.append((i + 1, lo, lo + size - 1))
-    toks += ["G", "0", "0", "-", "G", "1", "1", "-"]
+    # dual stack: profile q0 with a small IA_NA pool and a PD pool; group 2 = (p0, q0)
+    dual = rng.random() < 0.6
+    if dual:
+        lo6 = V6BASE + (1 << 64) + 0x10
+        toks += ["P6", "8", "0", "0", str(lo6), str(lo6 + rng.choice([0, 1, 2]))]
+        # 4 prefixes for at most 4 subscribers: ResolveV6 never comes back empty, so the DHCPv6 provider's own
+        # allocation path (Resolved == nil, not modelled) is not reached
+        toks += ["PD", "9", "0", "0", str(V6BASE + (0x100 << 64)), "62", "64"]
+    toks += ["G", "0", "0", "-", "G", "1", "1", "-", "G", "2", "0", "0"]
     ns = rng.randint(2, 4)
+    grp = {}
     for k in range(1, ns + 1):
-        toks += ["S", str(k), "I", str(rng.choice([0, 0, 1])), str(k)]
+        grp[k] = rng.choice([2, 2, 0]) if dual else rng.choice([0, 0, 1])
+        toks += ["S", str(k), "I", str(grp[k]), str(k)]
     def aaa(k):
         st = "-"
         c = rng.random()
@@ -206,6 +219,8 @@ def gen_b(rng):
         elif c < 0.36:
             st = str(V4BASE + 200 * 256 + 200)  # in the provider's /16, in no pool
         ov = str(rng.choice(pools)[0]) if rng.random() < 0.15 else "-"
+        if dual and grp[k] == 2:
+            return "BA %d 0 %s %s - -" % (k, st, ov)
         return "BA %d %d %s %s" % (k, rng.choice([0, 0, 1]), st, ov)
 
     def ending(k):
@@ -239,6 +254,13 @@ def gen_b(rng):
                 sc += ["BQ %d" % k]
             if rng.random() < 0.2:
                 sc += ["BD %d" % k]
+            if grp[k] == 2 and rng.random() < 0.8:
+                sc += ["BS %d" % k] + (["BV %d" % k] if rng.random() < 0.85 else [])
+                if rng.random() < 0.2:
+                    sc += ["BW %d" % k]
+                if rng.random() < 0.45:
+                    # DHCPv6 RELEASE (partial for a bound IPv4 session); completions first, as for every release
+                    sc += (["BC"] if queue else []) + ["BL %d" % k]
             sc += ending(k)
             scripts.append(sc)
     ops = []
@@ -252,7 +274,13 @@ def gen_b(rng):
         ops.append(q.pop(0))
         if rng.random() < 0.08:
             k = rng.randint(1, ns)
-            ops.append(rng.choice(["BD %d" % k, "BQ %d" % k, "BX %d" % k, "BC", "BJ %d" % k]))
+            ops.append(rng.choice(["BD %d" % k, "BQ %d" % k, "BX %d" % k, "BC", "BJ %d" % k, "BS %d" % k, "BV %d" % k]))
+        if not queue and rng.random() < 0.06:
+            ops.append("BZ")                    # the process dies and restores from opdb
+    if not queue and rng.random() < 0.5:
+        ops.append("BZ")
+        k = rng.randint(1, ns)
+        ops += ["BQ %d" % k, "BW %d" % k]
     return " ".join(toks) + " ; " + " ; ".join(ops)
 
 
@@ -412,8 +440,13 @@ def monitor(case, impl):
                 new["6"] = a6
             if pd != "nil":
                 new["D"] = pd
-        elif res[0] in ("pt", "ir", "it"):
+        elif res[0] in ("pt", "it"):
             live[sid] = False
+            continue
+        elif res[0] in ("ir", "il"):
+            # a release of one family: forget what was told for it (the session may live on with the other family)
+            for fam in (("4",) if res[0] == "ir" else ("6", "D")):
+                told.get(sid, {}).pop(fam, None)
             continue
         for fam, a in new.items():
             told.setdefault(sid, {})[fam] = a
@@ -451,23 +484,46 @@ def classify_b(case, impl, model):
         where = " first difference at event #%d (%s): impl=%r model=%r" % (d[0], opt, d[1][:300], d[2][:300])
     if impl.startswith("panic") or impl.startswith("hang"):
         return "P", "ipoe component " + impl[:200]
-    # component-level monitor: an address told to two subscribers that both still exist
-    told, gone = {}, set()
+    # component-level monitor over the component's own trace, independent of the model:
+    #  (a) an IPv4 address told to two subscribers that both still exist,
+    #  (b) two existing sessions that RECORD the same IPv4 address / IPv6 address / delegated prefix
+    #      (checked after every event, and over all sessions after a restart)
+    told, gone, recs = {}, set(), {}
     for k, (o, seg) in enumerate(zip(case_ops(case), segs(impl)[1:]), start=1):
         head = seg.split(" | ")[0].split()
-        if o[0] == "BC":
+        if not head:
             continue
-        if len(o) > 1 and "rec=gone" in head:
-            gone.add(o[1])
-            told.pop(o[1], None)
-        if len(o) > 1 and len(head) > 1:
-            for t in head[1].split(","):
-                if ":" in t:
-                    a = t.split(":")[1]
-                    for other, b in told.items():
-                        if other != o[1] and a == b:
-                            return "P", "subscribers %s and %s are both told %s (event #%d);%s" % (other, o[1], a, k, where)
-                    told[o[1]] = a
+        if head[0] == "bz" and len(head) > 1:
+            recs = {}
+            told = {}
+            for kv in head[1].split(","):
+                sub, r = kv.split("=")
+                if r != "gone":
+                    recs[sub[1:]] = r.split("/", 2)
+        elif len(o) > 1 and o[0] != "BC":
+            r = [h for h in head if h.startswith("rec=")]
+            if r:
+                if r[0] == "rec=gone":
+                    recs.pop(o[1], None)
+                    told.pop(o[1], None)
+                else:
+                    recs[o[1]] = r[0][4:].split("/", 2)
+            if len(head) > 1:
+                for t in head[1].split(","):
+                    if t.startswith(("offer:", "ack:")):
+                        a = t.split(":")[1]
+                        for other, b in told.items():
+                            if other != o[1] and a == b:
+                                return "P", "subscribers %s and %s are both told %s (event #%d);%s" % (other, o[1], a, k, where)
+                        told[o[1]] = a
+        seen = {}
+        for sub, r in recs.items():
+            for fam, val in zip(("IPv4 address", "IPv6 address", "delegated prefix"), r):
+                if val != "nil":
+                    if (fam, val) in seen:
+                        return "P", "sessions of subscribers %s and %s both hold %s %s after event #%d (%s);%s" % (
+                            seen[(fam, val)], sub, fam, val, k, " ".join(o), where)
+                    seen[(fam, val)] = sub
     return "G", "ipoe component and model disagree;" + where
 
 
@@ -480,6 +536,8 @@ def signature_b(case, impl, models):
     if not (0 < k <= len(ops)):
         return "other:init"
     o = ops[k - 1]
+    if len(o) < 2:
+        o = o + [""]
     ires, mres = iseg.split(" | ")[0], mseg.split(" | ")[0]
     il, ml = leases_of(iseg), leases_of(mseg)
     isnap, msnap = iseg.split(" | ")[1:], mseg.split(" | ")[1:]
@@ -547,7 +605,7 @@ def signature(case, impl, models):
     il, ml = leases_of(iseg), leases_of(mseg)
     if o[0] == "PA" and o[3] != str(FALLBACK) and "told=%d" % FALLBACK in ires and "told=nil" in mres:
         return "pppoe-startncp-constant-fallback"
-    if o[0] in ("PT", "IR", "IT"):
+    if o[0] in ("PT", "IR", "IT", "IL"):
         lost = [s for key, s in ml.items() if key not in il]
         if lost and all(s != "s" + o[1] for s in lost):
             return "release-frees-foreign-lease"
